@@ -18,6 +18,69 @@ def U(n):
     return ast.unparse(n)
 
 
+class _Rename(ast.NodeTransformer):
+    def __init__(self, mapping):
+        self.mapping = mapping
+
+    def visit_Name(self, node):
+        if node.id in self.mapping:
+            return ast.copy_location(ast.Name(id=self.mapping[node.id], ctx=node.ctx), node)
+        return node
+
+
+def inline_error_helper(core, find_def, body, ev):
+    """glom()'s handler may delegate to a private module-level helper:
+        err = _helper(e, …)            with   def _helper(exc, …):  <statements>
+        if err is None: raise                     if not isinstance(err, GlomError): return None
+                                                  err._finalize(…)
+                                                  return err
+    This is the same handler as the inlined statements followed by
+        if isinstance(err, GlomError): err._finalize(…)  else: raise
+    -> the statement list in that canonical form (or `body` unchanged when the shape is another one)."""
+    import copy as _copy
+    for i in range(len(body) - 1):
+        a, b = body[i], body[i + 1]
+        if not (isinstance(a, ast.Assign) and U(a.targets[0]) == 'err' and isinstance(a.value, ast.Call)
+                and isinstance(a.value.func, ast.Name) and a.value.func.id.startswith('_')
+                and a.value.args and U(a.value.args[0]) == ev and not a.value.keywords):
+            continue
+        if not (isinstance(b, ast.If) and U(b.test) == 'err is None' and [U(x) for x in b.body] == ['raise']
+                and not b.orelse):
+            continue
+        helper = find_def(core, a.value.func.id)
+        if helper is None or not isinstance(helper, ast.FunctionDef) or not helper.args.args:
+            continue
+        if helper.args.vararg or helper.args.kwarg or helper.args.kwonlyargs or helper.args.defaults:
+            continue
+        if len(helper.args.args) != len(a.value.args):
+            continue
+        hb = [st for st in helper.body
+              if not (isinstance(st, ast.Expr) and isinstance(st.value, ast.Constant) and isinstance(st.value.value, str))]
+        if len(hb) < 3:
+            continue
+        t1, t2, t3 = hb[-3:]
+        if not (isinstance(t1, ast.If) and U(t1.test) == 'not isinstance(err, GlomError)'
+                and [U(x) for x in t1.body] == ['return None'] and not t1.orelse
+                and isinstance(t2, ast.Expr) and U(t2).startswith('err._finalize(')
+                and U(t3) == 'return err'):
+            continue
+        if any(isinstance(n, ast.Return) for st in hb[:-3] for n in ast.walk(st)):
+            continue        # another way out of the helper: not this shape
+        # parameters -> the argument expressions of the call (plain names only)
+        if not all(isinstance(x, ast.Name) for x in a.value.args):
+            continue
+        mapping = {p.arg: x.id for p, x in zip(helper.args.args, a.value.args)}
+        inlined = [_Rename(mapping).visit(_copy.deepcopy(st)) for st in hb[:-3]]
+        fin = _Rename(mapping).visit(_copy.deepcopy(t2))
+        canon = ast.If(test=ast.parse('isinstance(err, GlomError)', mode='eval').body, body=[fin],
+                       orelse=[ast.Raise(exc=None, cause=None)])
+        out = body[:i] + inlined + [canon] + body[i + 2:]
+        for st in out:
+            ast.fix_missing_locations(st)
+        return out
+    return body
+
+
 def extract_glom_fn(core, find_def, exc_names, P):
     f = {'defCond': '?', 'defIf': '?', 'defElse': '?', 'skipCond': '?', 'skipIf': '?', 'skipElse': '?',
          'debugDefault': '?', 'innerCatch': ['?'], 'innerBody': ['?'], 'outerCatch': ['?'],
@@ -80,7 +143,8 @@ def extract_glom_fn(core, find_def, exc_names, P):
     f['outerCatch'] = exc_names(oh.type)
     ev = oh.name or 'e'
     steps = []
-    for st in oh.body:
+    hbody = inline_error_helper(core, find_def, list(oh.body), ev)
+    for st in hbody:
         if isinstance(st, ast.If) and U(st.test) == 'glom_debug' and [U(x) for x in st.body] == ['raise'] and not st.orelse:
             steps.append('debug-reraise')
         elif isinstance(st, ast.If) and U(st.test) == 'isinstance(%s, GlomError)' % ev:
@@ -131,12 +195,13 @@ def extract_glom_fn(core, find_def, exc_names, P):
     def guarded(pred):
         """every call matching `pred` in the outer handler stands inside the body of a try that catches Exception"""
         protected = set()
-        for t in ast.walk(oh):
+        holder = ast.Module(body=hbody, type_ignores=[])
+        for t in ast.walk(holder):
             if isinstance(t, ast.Try) and any(
                     h.type is None or {'Exception', 'BaseException'} & set(exc_names(h.type)) for h in t.handlers):
                 for st in t.body:
                     protected.update(id(n) for n in ast.walk(st))
-        calls = [n for n in ast.walk(oh) if isinstance(n, ast.Call) and pred(n)]
+        calls = [n for n in ast.walk(holder) if isinstance(n, ast.Call) and pred(n)]
         return bool(calls) and all(id(n) in protected for n in calls)
     f['attrGuarded'] = (guarded(lambda c: U(c.func).endswith('._set_wrapped'))
                         and guarded(lambda c: U(c.func).endswith('._finalize')))
@@ -239,14 +304,26 @@ def extract_coalesce(core, find_def, exc_names, P):
     h = tries[0].handlers[0]
     out['catch'] = exc_names(h.type)
     stmts = [U(x) for x in h.body]
-    out['continues'] = (stmts == ['skipped.append(%s)' % (h.name or 'e'), 'continue'])
+    append = 'skipped.append(%s)' % (h.name or 'e')
+    try_is_last = loop.body[-1] is tries[0]
+    # leaving the handler at its end goes on with the next subspec when the try is the last statement of the loop body
+    out['continues'] = (stmts == [append, 'continue']) or (stmts == [append] and try_is_last)
     if not out['continues']:
         P.add('Coalesce.glomit: handler is not `skipped.append(e); continue`')
-    rs = [n for st in loop.orelse for n in ast.walk(st) if isinstance(n, ast.Raise)]
+    if loop.orelse:
+        fallback = loop.orelse
+    else:
+        # no for-else: the statements after the loop are the fall-back provided the loop is left early only by `return`
+        idx = gl.body.index(loop)
+        fallback = gl.body[idx + 1:]
+        if any(isinstance(n, ast.Break) for n in ast.walk(loop)):
+            P.add('Coalesce.glomit: a loop with `break` and no for-else: the fall-back is not recognised')
+            fallback = []
+    rs = [n for st in fallback for n in ast.walk(st) if isinstance(n, ast.Raise)]
     if len(rs) == 1 and isinstance(rs[0].exc, ast.Call):
         out['elseRaises'] = U(rs[0].exc.func)
     else:
-        P.add('Coalesce.glomit: the for-else does not raise exactly one exception')
+        P.add('Coalesce.glomit: the fall-back after the loop does not raise exactly one exception')
     return out
 
 
